@@ -22,6 +22,7 @@ CONSTANTS
  NodeTeardown = TRUE
  MayVanish = TRUE
  SweepRelays = TRUE
+ TestCells = TRUE
  E2E = FALSE
  Aead = TRUE
  CheckIdent = TRUE
